@@ -11,7 +11,7 @@ def sh(cmd, cwd=None, timeout=900):
 def main():
     prop, name = sys.argv[1], sys.argv[2]
     needs = " ".join(sys.argv[3:])
-    src = os.path.join(os.environ.get("WTDIR", "/tmp/wt_%s" % prop), "demo")
+    src = os.environ.get("DEMODIR") or os.path.join(os.environ.get("WTDIR", "/tmp/wt_%s" % prop), "demo")
     dst = os.path.join(VERIF, "seeded", name)
     os.makedirs(dst, exist_ok=True)
     for f in ("patch.diff", "demo.c", "run.sh", "NOTES.md"):
